@@ -123,6 +123,8 @@ func RunValueInjective(w *World, r *Report, pkgRel, name, why string) {
 // C14: names, glyph names and language tags survive their encodings.
 func propC14(w *World, r *Report) {
 	defer runDeadAccIn(w, r, "/name", "/post", "/mac")
+	defer RunNameEncodingID(w, r)
+	defer RunGlobalAlias(w, r, "/name", "/post", "/mac", "/opentype/gtab")
 	e := NewEffects(w)
 	RunPlatformTables(w, r)
 	r.Floor("platformtables", 1)
